@@ -377,8 +377,8 @@ def run_sequence(repo, prog, compile_only=True, max_qubits=64, assemble=True, mo
             break
         steps.append(sa.active_regs(conn))
         peaks.append(peak[0])
-        mused.append(sorted(r.index for r, u in mm._used_meas_registers.items() if u))
-        mscr.append(sorted(r.index for r in getattr(mm, "_scratch_meas_registers", ())))
+        mused.append(_reg_indices(getattr(mm, "_used_meas_registers", ())))
+        mscr.append(_reg_indices(getattr(mm, "_scratch_meas_registers", ())))
         collect_newregs([s], newregs)
         user.append(sorted(it.reg[r].reg.index for r in newregs if r in it.reg))
     # no conn.close(): it would execute what is still pending
@@ -387,6 +387,19 @@ def run_sequence(repo, prog, compile_only=True, max_qubits=64, assemble=True, mo
     run_sequence.mscr = mscr
     run_sequence.asm_failures = getattr(it, "asm_failures", 0)
     return steps, err, peaks
+
+
+def _reg_indices(container):
+    """Indices of the registers a bookkeeping container of the memory manager marks: a dict register -> bool
+    (the shape at the pinned commit), or any collection of registers / indices (a refactored manager)."""
+    try:
+        if isinstance(container, dict):
+            items = [k for k, v in container.items() if v]
+        else:
+            items = list(container)
+        return sorted(int(getattr(r, "index", r)) for r in items)
+    except Exception:
+        return []
 
 
 def collect_newregs(stmts, acc):
